@@ -96,7 +96,9 @@ def generate(seed, tier):
                     cur = cand
                     break
         return {"family": "walk", "seed": seed, "q": rng.choice([0.0, 0.1, 0.4]), "spec": spec, "rewires": rewires,
-                "start": rng.randrange(n), "time": rng.randint(0, 30 if tier == "quick" else 200), "density": dens}
+                "start": rng.randrange(n), "time": rng.randint(0, 30 if tier == "quick" else 200), "density": dens,
+                # a weighted container in a third of the runs: the walk is defined by sizes only, weights must not enter
+                "weights": [rng.choice([1, 2, 3, 5, 0.5]) for _ in range(len(spec["edges"]) + len(rewires))] if rng.random() < 0.33 else None}
     if rng.random() < 0.1:
         spec = _gen.rand_hypergraph_spec(rng, nmin=12, nmax=20, emin=8, emax=24, smin=2, smax=4, singletons=0.05)
         T = rng.randint(1, 40)
@@ -112,7 +114,8 @@ def generate(seed, tier):
             triples.append([rng.choice([0, 0.3, 0.7, 1]), rng.choice([0, 0.5, 1]), rng.choice([0, 0.2, 0.6, 1])])
     init = [n for n in spec["nodes"] if rng.random() < rng.choice([0.2, 0.5])]
     return {"family": "contagion", "seed": seed, "q": rng.choice([0.0, 0.1, 0.4]), "spec": spec, "T": T, "triples": triples,
-            "infected": init, "pin": rng.choice([None, None, "lo", "hi"])}
+            "infected": init, "pin": rng.choice([None, None, "lo", "hi"]),
+            "weights": [rng.choice([1, 2, 3, 5, 0.5]) for _ in spec["edges"]] if rng.random() < 0.25 else None}
 
 
 def _reference(spec, infected, T, b, bD, mu):
@@ -156,7 +159,7 @@ def _exec_contagion(case, stats, traces):
     N = len(nodes)
     head = []
     for idx, (b, bD, mu) in enumerate(case["triples"]):
-        h = _gen.build_hypergraph(spec)
+        h = _gen.build_hypergraph(spec, weights=case.get("weights"), weighted=bool(case.get("weights")))
         I0 = {n: (1 if n in case["infected"] else 0) for n in nodes}
         I0_copy = dict(I0)
         fac = Facade(derive(case["seed"], "triple", idx), q=case["q"], stretch=case["pin"])
@@ -210,12 +213,16 @@ def _exec_contagion(case, stats, traces):
 
 def _exec_walk(case, stats, traces):
     spec = case["spec"]
-    h = _gen.build_hypergraph(spec)
+    wts = case.get("weights")
+    h = _gen.build_hypergraph(spec, weights=wts, weighted=bool(wts))
     edges = [list(e) for e in spec["edges"]]
     head = _walk_state(case, h, {"nodes": spec["nodes"], "edges": edges}, stats, traces, 0)
     for idx, (old, new) in enumerate(case.get("rewires", []), start=1):
         h.remove_edge(tuple(old))
-        h.add_edge(tuple(new))
+        if wts:
+            h.add_edge(tuple(new), weight=wts[len(spec["edges"]) + idx - 1])
+        else:
+            h.add_edge(tuple(new))
         edges = [e for e in edges if set(e) != set(old)] + [list(new)]
         _walk_state(case, h, {"nodes": spec["nodes"], "edges": edges}, stats, traces, idx)
         stats["requeries_after_rewire"] = stats.get("requeries_after_rewire", 0) + 1
